@@ -193,11 +193,11 @@ BlankLine == RStrip(PrefixRest(open))
 QuoteIdx(fr) == {i \in DOMAIN fr : fr[i].kind = "quote"}
 BlankC(fr) == IF QuoteIdx(fr) = {} THEN RStrip(PrefixRest(fr))
               ELSE PrefixRest(SubSeq(fr, 1, CHOOSE q \in QuoteIdx(fr) : \A r \in QuoteIdx(fr) : r <= q))
-BlankOf(fr, sep) == IF sep = "blankc" THEN BlankC(fr) ELSE RStrip(PrefixRest(fr))
+BlankOf(fr, sep) == IF sep = "blankc" THEN BlankC(fr) ELSE IF sep = "blankt" THEN BlankC(fr) \o "{TAB}" ELSE RStrip(PrefixRest(fr))
 
 (* separator before a new sibling: "none", "blank" or (inside a quote) "blankc" *)
-Seps == {"none", "blank"} \cup (IF InQuote THEN {"blankc"} ELSE {})
-IsBlank(sep) == sep \in {"blank", "blankc"}
+Seps == {"none", "blank"} \cup (IF InQuote THEN {"blankc"} ELSE {}) \cup (IF Level = 2 THEN {"blankt"} ELSE {})     \* "blankt": a blank line that holds a tab
+IsBlank(sep) == sep \in {"blank", "blankc", "blankt"}
 SepLines(sep) == IF IsBlank(sep) THEN <<BlankOf(open, sep)>> ELSE << >>
 
 (* tag "title-like-word-after-definition": text that directly follows a link reference definition and begins with a word
@@ -209,7 +209,7 @@ TitleLike(sep, l1) == IF sep = "none" /\ last.inner = "def" /\ l1 # << >> /\ Sub
 
 (* tag "nc": the document uses a spelling the Markdown renderer does not write itself (it is not in the renderer's normal form) *)
 NcIf(c) == IF c THEN {"nc"} ELSE {}
-NcSep(sep) == NcIf(sep = "blank" /\ InQuote)
+NcSep(sep) == NcIf((sep = "blank" /\ InQuote) \/ sep = "blankt")
 
 (* may `next` follow the previous sibling without a blank line?  (CommonMark: what may interrupt a paragraph; nothing
    merges with a heading, a thematic break, a closed fence or a definition; a closed container needs a blank line
@@ -375,7 +375,8 @@ TypeTable ==
            aligns0 == At(<< <<"---", "---">>, <<":--", ":-:">>, <<"--:", "-">>, <<":---:", "---">> >>, v)
            w == WordAt(nblocks + 1)
            hdr == <<"h" \o w, "*em*">>
-           rows == IF esc THEN << <<"x \\| y", "`p \\| q`">> >> ELSE IF v % 3 = 0 THEN << <<w, "two">> >>
+           dup == v % 7 = 5                                          \* the same row twice (and the same text in several cells)
+           rows == IF dup THEN << <<"same", "same">>, <<"same", "same">> >> ELSE IF esc THEN << <<"x \\| y", "`p \\| q`">> >> ELSE IF v % 3 = 0 THEN << <<w, "two">> >>
                    ELSE IF v % 3 = 1 /\ ~canon THEN << <<w, "`co`">>, <<"short">> >> ELSE << <<"a " \o w, "b">>, <<"c", "d">> >>
            width(c) == Max2(3, MaxLen(<<hdr>> \o rows, c))
            kind(c) == AlignKind(aligns0[c])
